@@ -113,17 +113,24 @@ Definition iso_hash (R : N) (pw salt udata : list N) : list N :=
 
 Definition iso_sub (l : list N) (pos len : nat) : list N := firstn len (skipn pos l).
 
-(* Algorithm 2.A: retrieving the file key (R = 5, 6); the flag says "opened as owner" *)
+(* Algorithm 2.A: retrieving the file key (R = 5, 6). Algorithms 11 / 12: is the (truncated) password
+   the user / the owner password; then the intermediate key and the file key from /UE resp. /OE *)
+Definition iso_pw_V5 (password : list N) : list N := firstn 127 password.
+Definition iso_is_owner_V5 (d : iso_dict) (password : list N) : bool :=
+  bytes_eqb (iso_hash (iso_R d) (iso_pw_V5 password) (iso_sub (iso_O d) 32 8) (iso_sub (iso_U d) 0 48))
+            (iso_sub (iso_O d) 0 32).
+Definition iso_is_user_V5 (d : iso_dict) (password : list N) : bool :=
+  bytes_eqb (iso_hash (iso_R d) (iso_pw_V5 password) (iso_sub (iso_U d) 32 8) []) (iso_sub (iso_U d) 0 32).
+Definition iso_key_as_owner_V5 (d : iso_dict) (password : list N) : list N :=
+  let ik := iso_hash (iso_R d) (iso_pw_V5 password) (iso_sub (iso_O d) 40 8) (iso_sub (iso_U d) 0 48) in
+  iso_cbc_dec (aes_key_schedule ik) iso_zero_iv (iso_blocks (iso_sub (iso_OE d) 0 32)).
+Definition iso_key_as_user_V5 (d : iso_dict) (password : list N) : list N :=
+  let ik := iso_hash (iso_R d) (iso_pw_V5 password) (iso_sub (iso_U d) 40 8) [] in
+  iso_cbc_dec (aes_key_schedule ik) iso_zero_iv (iso_blocks (iso_sub (iso_UE d) 0 32)).
+(* the owner test comes first (as the standard says); the flag says "opened as owner" *)
 Definition iso_open_V5 (d : iso_dict) (password : list N) : option (list N * bool) :=
-  let pw := firstn 127 password in
-  let R := iso_R d in
-  let U48 := iso_sub (iso_U d) 0 48 in
-  if bytes_eqb (iso_hash R pw (iso_sub (iso_O d) 32 8) U48) (iso_sub (iso_O d) 0 32) then
-    let ik := iso_hash R pw (iso_sub (iso_O d) 40 8) U48 in
-    Some (iso_cbc_dec (aes_key_schedule ik) iso_zero_iv (iso_blocks (iso_sub (iso_OE d) 0 32)), true)
-  else if bytes_eqb (iso_hash R pw (iso_sub (iso_U d) 32 8) []) (iso_sub (iso_U d) 0 32) then
-    let ik := iso_hash R pw (iso_sub (iso_U d) 40 8) [] in
-    Some (iso_cbc_dec (aes_key_schedule ik) iso_zero_iv (iso_blocks (iso_sub (iso_UE d) 0 32)), false)
+  if iso_is_owner_V5 d password then Some (iso_key_as_owner_V5 d password, true)
+  else if iso_is_user_V5 d password then Some (iso_key_as_user_V5 d password, false)
   else None.
 
 (* Algorithm 13: validating /Perms against /P and /EncryptMetadata (ECB, one block) *)
